@@ -59,7 +59,9 @@ RULE = ("case kinds: point (one geometry; CIS default start + random orthonormal
         "RPA<=CIS), window (CIS and RPA in an orbital window), seq (5-point geometry sequence on ONE Molecule object, amplitude "
         "reuse with make_best_guess / raw reuse / no reuse, each point also solved fresh), hbatch (same species, "
         "different geometries, vs alone), ubatch (3-4 geometries of one molecule, near-equilibrium + strongly distorted + "
-        "stretched, n_states 1-3, EVERY batch order, each member vs dense and vs alone), mbatch (different molecules padded into one batch -> rcis_any_batch, vs alone). "
+        "stretched, n_states 1-3, EVERY batch order, each member vs dense and vs alone), maxiter (user iteration cap 1,2,3,4,6,"
+        "default: raise or true eigenpairs), lbatch (same-species batch whose rows carry different per-atom learned "
+        "g_ss/g_sp/g_pp/g_p2/h_sp/zeta, both orders, each row vs dense from its own values and vs alone), mbatch (different molecules padded into one batch -> rcis_any_batch, vs alone). "
         "Every finished solve is judged against the dense A/B built from its own returned orbitals.  A case is "
         "non-trivial when at least one judged solve had more singles than requested roots and the Davidson loop "
         "needed >= 2 sigma builds; distinct by SHA-1 of the case")
@@ -77,7 +79,8 @@ ASSUMPTIONS = [
 ]
 REQUIRED_MONITORS = ["roots_checked", "rpa_roots_checked", "degenerate_roots_checked", "sigma_crosschecks",
                      "random_start_solves", "reuse_solves", "mixed_batch_mols_judged", "homo_batch_mols_judged",
-                     "window_solves", "iterative_solves", "uneven_rpa_batch_orders", "uneven_cis_batch_orders"]
+                     "window_solves", "iterative_solves", "uneven_rpa_batch_orders", "uneven_cis_batch_orders",
+                     "max_iter_cap_raised", "max_iter_returned_and_judged", "learned_batch_rows_judged"]
 CASE_TIMEOUT = 900.0
 MIN_NONTRIVIAL = 8
 BUDGET_S = {"quick": 200, "thorough": 1700}
@@ -260,14 +263,14 @@ def gen_cases(tier, seed):
     big = [n for n in pool if _dims(n)[0] * _dims(n)[1] >= 60]
     sym = [n for n in SYMMETRIC + EXTRA_SYM if n in pool]
     if tier == "quick":
-        n_point, n_window, n_seq, n_hb, n_mb, n_ub = 26, 10, 12, 8, 8, 8
+        n_point, n_window, n_seq, n_hb, n_mb, n_ub, n_mi, n_lp = 20, 10, 12, 8, 8, 8, 4, 6
         nstart = 2
         # quick tier: no single case above ~40 s -- cubane (nov 400) only in the thorough tier, sequences on nov <= 100
         pool = [n for n in pool if _dims(n)[0] * _dims(n)[1] <= 310]
         big = [n for n in big if n in pool]
         sym = [n for n in sym if n in pool]
     else:
-        n_point, n_window, n_seq, n_hb, n_mb, n_ub = 420, 160, 170, 110, 110, 140
+        n_point, n_window, n_seq, n_hb, n_mb, n_ub, n_mi, n_lp = 420, 160, 170, 110, 110, 140, 70, 100
         nstart = 3
     cases = []
 
@@ -346,6 +349,35 @@ def gen_cases(tier, seed):
         cases.append({"kind": "ubatch", "mol": name, "method": method, "xm": "rpa" if i % 2 == 0 else "cis",
                       "n_states": int(g.integers(1, min(3, no * nv) + 1)), "tol": float(_pick(g, [1e-6, 1e-7, 1e-8])),
                       "geoms": geoms, "orders": orders})
+    # ---- user iteration cap: `excited_states["max_iter"]` below / around the iterations needed.  The call must either
+    #      raise (loud) or return eigenpairs that satisfy every clause; unconverged roots returned silently are the violation
+    mi_pool = [n for n in ("C2H6", "CH3NH2", "HCOOH", "PCl3", "BF3", "AlCl3", "C3H4", "CCl4", "CF4", "SiH3Cl", "CH3OH")
+               + (("C3H8", "C3H6c", "C4H6", "C3N3H3") if tier != "quick" else ()) if n in pool]
+    for i in range(n_mi):
+        name = _pick(g, mi_pool)
+        no, nv = _dims(name)
+        cases.append({"kind": "maxiter", "mol": name, "method": _pick(g, _methods_for(name)),
+                      "geom": {"mol": name, "mode": "distort", "seed": int(g.integers(0, 2**31)),
+                               "sigma": float(_pick(g, [0.05, 0.1])), "rot": "haar"},
+                      "n_states": int(g.integers(3, 7)), "tol": float(_pick(g, [1e-6, 1e-7, 1e-8])),
+                      "caps": [1, 2, 3, 4, 6, None], "nbatch": 1 if i % 2 == 0 else 2,
+                      "geom2_seed": int(g.integers(0, 2**31))})
+    # ---- per-atom LEARNED parameters that differ between the rows of a same-species batch (the ML interface):
+    #      every row has its own response matrix; both batch orders; each row vs dense (own values) and vs alone
+    lp_pool = [n for n in ("CH2O", "C2H4", "HCN", "NH3", "CH3F", "H2O", "CO2", "HNO", "CH3OH", "C2H2", "N2O", "HCOOH")
+               + (("C2H6", "CH3NH2", "C3H8", "C4H6") if tier != "quick" else ()) if n in pool]
+    for i in range(n_lp):
+        name = _pick(g, lp_pool)
+        no, nv = _dims(name)
+        names_l = ["g_ss", "g_sp", "g_pp", "g_p2", "h_sp"] + (["zeta_s", "zeta_p"] if g.random() < 0.5 else [])
+        if g.random() < 0.3:
+            names_l = [n for n in names_l if g.random() < 0.6] or ["g_pp", "h_sp"]
+        cases.append({"kind": "lbatch", "mol": name, "method": _pick(g, [m for m in _methods_for(name) if m != "PM6_SP"] or ["AM1"]),
+                      "xm": "rpa" if i % 2 else "cis", "n_states": int(g.integers(1, min(6, no * nv) + 1)),
+                      "tol": float(_pick(g, [1e-6, 1e-7, 1e-8])), "nbatch": int(g.integers(2, 4)),
+                      "sigma": float(_pick(g, [0.0, 0.03, 0.08])), "geom_seed": int(g.integers(0, 2**31)),
+                      "learned": names_l, "spread": float(_pick(g, [1e-4, 1e-3, 5e-3, 1e-2])),
+                      "par_seed": int(g.integers(0, 2**31))})
     # ---- mixed batches (rcis_any_batch)
     for i in range(n_mb):
         method = _pick(g, METHODS)
@@ -395,6 +427,7 @@ def gen_cases(tier, seed):
             nsolve = {"seq": 5 + 5 * len(c.get("modes", [1, 2, 3])), "hbatch": 2 * len(c.get("geoms", [])),
                       "mbatch": 2 * len(c.get("geoms", [])), "point": 3 + 2 * len(c.get("starts", [])),
                       "ubatch": len(c.get("geoms", [])) * (1 + len(c.get("orders", []))),
+                      "maxiter": len(c.get("caps", [])) * c.get("nbatch", 1), "lbatch": 3 * c.get("nbatch", 2),
                       "window": 2 + len(c.get("starts", []))}[c["kind"]]
             return nsolve * (1.0 + (nov / 60.0) ** 2)
         order = sorted(range(len(cases)), key=lambda i: (-cost(cases[i]), i))
@@ -553,8 +586,9 @@ class Acc:
         self.info = {}
 
     def note_max(self, name, val):
+        val = float(val) if math.isfinite(float(val)) else 1e300
         if name not in self.info or val > self.info[name]:
-            self.info[name] = float(val)
+            self.info[name] = val
 
     def m(self, name, n=1):
         self.mon[name] = self.mon.get(name, 0) + n
@@ -578,11 +612,14 @@ class Acc:
                 self.margins[k] = r
 
     def margin(self, name, val, bound):
+        """-> True when the bound is NOT met.  NaN-safe: a non-finite observation never passes (stored as 1e300)."""
         r = float(val) / float(bound)
+        if not math.isfinite(r):
+            r = 1e300
         tgt = self._scope if getattr(self, "_scope", None) is not None else self.margins
         if name not in tgt or r > tgt[name]:
             tgt[name] = r
-        return r > 1.0
+        return not (r <= 1.0)
 
     def v(self, clause, mech, **detail):
         # at most two witnesses per (clause, mechanism) and twelve per case
@@ -597,12 +634,17 @@ class Acc:
 # ---------------------------------------------------------------------------------------
 # running the real code
 # ---------------------------------------------------------------------------------------
-def _settings(method, xm, n_states, tol, window=None, best=True):
+def _settings(method, xm, n_states, tol, window=None, best=True, max_iter=None, learned=None):
     from vlib import run
     exc = {"n_states": int(n_states), "tolerance": float(tol), "method": xm, "make_best_guess": bool(best)}
     if window is not None:
         exc["orbital_window"] = [int(window[0]), int(window[1])]
-    return run.settings(method, eps=SCF_EPS, converger=(2,), grad="analytical", excited=exc)
+    if max_iter is not None:
+        exc["max_iter"] = int(max_iter)
+    sett = run.settings(method, eps=SCF_EPS, converger=(2,), grad="analytical", excited=exc)
+    if learned:
+        sett["learned"] = list(learned)
+    return sett
 
 
 def _call(es, mol, **kw):
@@ -634,10 +676,13 @@ def _call(es, mol, **kw):
             "path": path[0] if len(path) == 1 else ",".join(path)}
 
 
-def _fresh(Z, X, sett, q=0, m=1, **kw):
+def _fresh(Z, X, sett, q=0, m=1, learned=None, **kw):
     from vlib import run
     with run.quiet():
-        mol, es, _ = run.build(Z, X, sett, q, m)
+        # (the package writes into the dict it is given: hand every consumer its own copy)
+        mol, es, _ = run.build(Z, X, sett, q, m, learned=dict(learned) if learned is not None else None)
+    if learned is not None:
+        kw["learned_parameters"] = dict(learned)
     info = _call(es, mol, **kw)
     return mol, es, info
 
@@ -680,6 +725,10 @@ def _reference(acc, mol, b, window, hetero, cache, do_sigma):
         return cache[key]
     d = _extract(mol, b)
     par = d["par"]
+    if not D.all_finite(d["w"], d["C"], d["e"], d["X"], *par.values()):
+        acc.guard_fail = "orbitals / integrals / parameters returned by the call are not finite: no reference can be built"
+        d["C"] = np.nan_to_num(d["C"]); d["e"] = np.nan_to_num(d["e"]); d["w"] = np.nan_to_num(d["w"])
+        par = d["par"] = {k: np.nan_to_num(v) for k, v in par.items()}
     G = D.eri_ao(d["Z"], d["pairs"], d["w"], par["g_ss"], par["g_sp"], par["g_pp"], par["g_p2"], par["h_sp"])
     nocc, norb = d["nocc"], d["norb"]
     if window:
@@ -693,7 +742,7 @@ def _reference(acc, mol, b, window, hetero, cache, do_sigma):
     if d["pairs"]:
         ss = np.abs(D.ss_klopman(d["Z"], d["X"], d["pairs"], par["g_ss"]) - d["w"][:, 0, 0]).max()
         acc.margin("guard_ss_klopman", ss, GUARD_SS)
-        if ss > GUARD_SS:
+        if not (ss <= GUARD_SS):
             acc.guard_fail = "pair -> atom mapping of molecule.w not as assumed (|dss| = %.2e)" % ss
     if not do_sigma:
         cache[("hcore", id(mol))] = None
@@ -722,7 +771,7 @@ def _reference(acc, mol, b, window, hetero, cache, do_sigma):
         fe = np.abs(Fmo - np.diag(d["e"])).max()
         acc.m("fock_guard_checks")
         acc.margin("guard_fock", fe, GUARD_FOCK)
-        if fe > GUARD_FOCK:
+        if not (fe <= GUARD_FOCK):
             acc.guard_fail = "C^T (Hcore + G[P]) C != diag(e_mo) (%.2e): dense integrals or orbitals not as assumed" % fe
     # --- consistency monitor: the repository's sigma builder on unit vectors
     ref["sigma_dA"] = ref["sigma_dB"] = None
@@ -817,8 +866,8 @@ def _judge_inner(acc, mol, b, run, cache, do_sigma=True):
     E, X, Y, leak, pad = _amps(mol, b, xm, ref, hetero)
     m = len(E)
     solver, start = run["solver"], run["start"]
-    if (ref["sigma_dA"] is not None and ref["sigma_dA"] > SIGMA_TOL) or \
-            (xm == "rpa" and ref["sigma_dB"] is not None and ref["sigma_dB"] > SIGMA_TOL):
+    if (ref["sigma_dA"] is not None and not (ref["sigma_dA"] <= SIGMA_TOL)) or \
+            (xm == "rpa" and ref["sigma_dB"] is not None and not (ref["sigma_dB"] <= SIGMA_TOL)):
         acc.sig_bad = True
     sig_bad = acc.sig_bad
 
@@ -831,6 +880,10 @@ def _judge_inner(acc, mol, b, run, cache, do_sigma=True):
         """deterministic mechanism classifier over the witness"""
         if sig_bad:
             return "sigma-build-differs-from-dense"
+        cap = run.get("max_iter")
+        if cap is not None and (run.get("iters") or 0) >= cap:
+            # the user's iteration cap was reached and the call still returned: whatever clause fails, this is the mechanism
+            return "cap-reached-but-returned-silently"
         startclass = "amplitude-reuse" if start.startswith("reuse") else start
         if clause == "residual-above-tol":
             if not stag_exit:
@@ -881,6 +934,18 @@ def _judge_inner(acc, mol, b, run, cache, do_sigma=True):
            "sigma_vs_dense": [ref["sigma_dA"], ref["sigma_dB"]], "returned": E.tolist(), "stagnation": st}
     rec = {"E": E, "ref": ref, "X": X, "ok": True, "Etot": float(mol.Etot[b]), "label": run["label"]}
     acc.m("solves_judged")
+    # ---- finiteness gate (every later comparison assumes finite numbers; uninitialised amplitude memory may hold NaN/inf)
+    from vlib import c16_dense as D
+    amp_all = mol.cis_amplitudes.detach().cpu().numpy()
+    amp_b = amp_all[:, b] if xm == "rpa" else amp_all[b]
+    if not D.all_finite(E, X, amp_b, mol.cis_energies[b].detach().cpu().numpy()) or (Y is not None and not D.all_finite(Y)) \
+            or not math.isfinite(rec["Etot"]):
+        acc.margin("finite_results", float("nan"), 1.0)
+        acc.v("non-finite-result", mech("non-finite-result"), **dict(wit, returned=[repr(float(x)) for x in E]))
+        rec["ok"] = False
+        rec["stop"] = True
+        return rec
+    acc.margin("finite_results", 0.0, 1.0)
     acc.cells.append("%s/%s/tol%g/%s/%s" % (solver, start, tol, "window" if window else "full",
                                             "symmetric" if _is_symmetric(ref["d"]["Z"], ref["d"]["X"]) else "asymmetric"))
     if nov > m and (run.get("iters") or 0) >= 2:
@@ -924,9 +989,8 @@ def _judge_inner(acc, mol, b, run, cache, do_sigma=True):
         return rec
     if pad:
         acc.m("padded_root_rows_ignored", pad)
-    if leak > ORTHO_TOL:
+    if acc.margin("pad_leak", leak, ORTHO_TOL):
         acc.v("amplitude-leaks-into-padding", mech("amplitude-leaks-into-padding"), leak=leak, **wit)
-    acc.margin("pad_leak", leak, ORTHO_TOL)
     # ---- ascending
     if m > 1:
         worst = float(np.max(E[:-1] - E[1:]))
@@ -1072,7 +1136,7 @@ def _compare_runs(acc, base, var, tol_b, tol_v, n_req, nov, what, mech):
     """same answer from every start / history / batch composition: energies, and level projectors in the AO basis."""
     if not (base and var and base.get("ok") and var.get("ok")):
         return
-    if abs(base["Etot"] - var["Etot"]) > 1e-5:
+    if not (abs(base["Etot"] - var["Etot"]) <= 1e-5):
         # the two runs sit on different SCF solutions: a ground-state matter (C03/C05), the CIS comparison is meaningless
         acc.m("cross_run_skipped_different_scf_solution")
         if len(acc.notes) < 6:
@@ -1357,6 +1421,114 @@ def _ubatch(case, acc):
     return _finish(acc, obs)
 
 
+def _maxiter(case, acc):
+    Z, X, q, m = geometry(case["geom"])
+    n_req, tol, method, nb = case["n_states"], case["tol"], case["method"], case.get("nbatch", 1)
+    Xs = [X]
+    if nb > 1:
+        Xs.append(geometry(dict(case["geom"], seed=case["geom2_seed"]))[1])
+    obs = {"species": Z, "outcomes": {}}
+    for cap in case["caps"]:
+        sett = _settings(method, "cis", n_req, tol, max_iter=cap)
+        if nb == 1:
+            mol, es, info = _fresh(Z, X, sett, q, m)
+        else:
+            mol, es, info = _fresh([Z] * nb, Xs, sett, [q] * nb if q else 0, m)
+        acc.m("max_iter_calls")
+        key = "default" if cap is None else str(cap)
+        if info["raised"]:
+            if "Maximum iterations" in info["raised"]:
+                acc.m("max_iter_cap_raised")
+                acc.cells.append("maxiter/cap%s/raised" % key)
+                obs["outcomes"][key] = "raised"
+            else:
+                _note_raise(acc, info, "maxiter")
+                obs["outcomes"][key] = info["raised"][:80]
+            continue
+        obs["outcomes"][key] = "returned after %d sigma builds" % info["iters"]
+        acc.cells.append("maxiter/cap%s/returned" % key)
+        cache = {}
+        for b in range(nb):
+            if not _scf_ok(info, b):
+                acc.m("scf_not_converged")
+                continue
+            _judge(acc, mol, b, {"xm": "cis", "tol": tol, "n_req": n_req, "solver": "rcis-batch", "start": "default-guess",
+                                 "label": "max_iter=%s, molecule %d of %d" % (key, b, nb), "iters": info["iters"],
+                                 "stag": info["stagnation"], "max_iter": cap}, cache, do_sigma=(b == 0 and cap is None))
+            acc.m("max_iter_returned_and_judged")
+    return _finish(acc, obs)
+
+
+def _lbatch(case, acc):
+    """same-species batch, per-atom learned parameters that differ between the rows"""
+    import torch
+    from vlib import run
+    xm, n_req, tol, method, nb = case["xm"], case["n_states"], case["tol"], case["method"], case["nbatch"]
+    solver = "rpa" if xm == "rpa" else "rcis-batch"
+    Z, X0, q, m = molecule(case["mol"])
+    gg = np.random.default_rng(case["geom_seed"])
+    Xs = []
+    for r in range(nb):
+        Xr = gen.distort(X0, gg, sigma=case["sigma"]) if case["sigma"] > 0 else np.array(X0, float)
+        Xs.append(Xr @ gen.generic_rotation(Xr, gg).T)
+    names = list(case["learned"])
+    sett = _settings(method, xm, n_req, tol, learned=names)
+    # shipped per-atom values (one row), read from a plain Molecule of the same species
+    with run.quiet():
+        mol0, _, _ = run.build(Z, Xs[0], _settings(method, xm, n_req, tol), q, m)
+    base = {n: mol0.parameters[n].detach().cpu().numpy().astype(float).copy() for n in names}
+    nat = len(Z)
+    gp = np.random.default_rng(case["par_seed"])
+    rows = [{n: base[n] * (1.0 + case["spread"] * gp.uniform(-1, 1, nat)) for n in names} for r in range(nb)]
+    obs = {"species": Z, "xm": xm, "learned": names, "spread": case["spread"], "E": {}}
+
+    def tens(order):
+        return {n: torch.as_tensor(np.concatenate([rows[r][n] for r in order])) for n in names}
+
+    alone = []
+    for r in range(nb):
+        mol1, es1, info1 = _fresh(Z, Xs[r], sett, q, m, learned=tens([r]))
+        rec = None
+        if info1["raised"]:
+            _note_raise(acc, info1, "%s-learned-alone" % xm)
+        elif _scf_ok(info1):
+            rec = _judge(acc, mol1, 0, {"xm": xm, "tol": tol, "n_req": n_req, "solver": solver, "start": "default-guess",
+                                        "label": "row %d alone (own learned parameters)" % r, "iters": info1["iters"],
+                                        "stag": info1["stagnation"]}, {}, do_sigma=(r == 0))
+        alone.append(rec)
+    for order in ([list(range(nb)), list(range(nb))[::-1]]):
+        tag = "".join(str(r) for r in order)
+        mol, es, info = _fresh([Z] * nb, [Xs[r] for r in order], sett, [q] * nb if q else 0, m, learned=tens(order))
+        if info["raised"]:
+            _note_raise(acc, info, "%s-lbatch" % xm)
+            if all(a is not None and a.get("ok") for a in alone):
+                acc.v("batch-only-solver-failure", "batch-only-solver-failure-%s" % solver, order=order, message=info["raised"])
+            continue
+        obs["E"][tag] = mol.cis_energies.detach().cpu().numpy()[:, :n_req].tolist()
+        cache = {}
+        for p, r in enumerate(order):
+            # the row must carry exactly the values that were supplied for it
+            dev = max(float(np.abs(mol.parameters[n].detach().cpu().numpy()[p * nat:(p + 1) * nat] - rows[r][n]).max())
+                      for n in names)
+            if acc.margin("learned_values_applied", dev, 1e-12):
+                acc.v("learned-parameters-not-applied-per-row", "learned-parameter-row-mismatch", row=r, position=p, deviation=dev)
+                continue
+            if not _scf_ok(info, p):
+                acc.m("scf_not_converged")
+                continue
+            rec = _judge(acc, mol, p, {"xm": xm, "tol": tol, "n_req": n_req, "solver": solver, "start": "default-guess",
+                                       "label": "row %d at position %d of learned-parameter batch order %s (spread %g on %s)" % (
+                                           r, p, tag, case["spread"], ",".join(names)),
+                                       "iters": info["iters"], "stag": info["stagnation"]}, cache, do_sigma=True)
+            acc.m("learned_batch_rows_judged")
+            acc.m("homo_batch_mols_judged")
+            acc.cells.append("lbatch/%s/spread%g" % (solver, case["spread"]))
+            if alone[r] is not None:
+                _compare_runs(acc, alone[r], rec, tol, tol, n_req, rec["ref"]["nov"], "learned-batch-vs-alone",
+                              "batch-dependent-%s" % solver)
+    return _finish(acc, obs)
+
+
 def _mbatch(case, acc):
     n_req, tol, method = case["n_states"], case["tol"], case["method"]
     gs = [geometry(s) for s in case["geoms"]]
@@ -1407,6 +1579,10 @@ def run_case(case):
         return _hbatch(case, acc)
     if kind == "ubatch":
         return _ubatch(case, acc)
+    if kind == "maxiter":
+        return _maxiter(case, acc)
+    if kind == "lbatch":
+        return _lbatch(case, acc)
     if kind == "mbatch":
         return _mbatch(case, acc)
     raise ValueError("unknown case kind %r" % kind)
